@@ -37,6 +37,12 @@ func paintSeverity(sb *strings.Builder, text string) bool {
 
 func paintRemote(sb *strings.Builder, line string) {
 	splitted := strings.SplitN(line, protocol.FieldDelimiter, 6)
+	if len(splitted) < 6 {
+		// Not a complete record (e.g. log content which merely starts like
+		// one): print it as plain text rather than indexing missing fields.
+		color.PaintWithAttr(sb, line, color.FgDefault, color.BgDefault, color.AttrNone)
+		return
+	}
 
 	color.PaintWithAttr(sb, splitted[0],
 		config.Client.TermColors.Remote.RemoteFg,
@@ -105,6 +111,12 @@ func paintRemote(sb *strings.Builder, line string) {
 
 func paintClient(sb *strings.Builder, line string) {
 	splitted := strings.SplitN(line, protocol.FieldDelimiter, 3)
+	if len(splitted) < 3 {
+		// Not a complete record (e.g. log content which merely starts like
+		// one): print it as plain text rather than indexing missing fields.
+		color.PaintWithAttr(sb, line, color.FgDefault, color.BgDefault, color.AttrNone)
+		return
+	}
 
 	color.PaintWithAttr(sb, splitted[0],
 		config.Client.TermColors.Client.ClientFg,
@@ -138,6 +150,12 @@ func paintClient(sb *strings.Builder, line string) {
 
 func paintServer(sb *strings.Builder, line string) {
 	splitted := strings.SplitN(line, protocol.FieldDelimiter, 3)
+	if len(splitted) < 3 {
+		// Not a complete record (e.g. log content which merely starts like
+		// one): print it as plain text rather than indexing missing fields.
+		color.PaintWithAttr(sb, line, color.FgDefault, color.BgDefault, color.AttrNone)
+		return
+	}
 
 	color.PaintWithAttr(sb, splitted[0],
 		config.Client.TermColors.Server.ServerFg,
